@@ -66,12 +66,12 @@ func newWalkPool(strat int, n int) (*pool.ConnPool, []*pool.VerifRealConn, []*wc
 	p := pool.New(stratNames[strat])
 	conns := make([]*pool.VerifRealConn, n)
 	for i := range conns {
-		conns[i] = p.VerifAddRealConn(i)
+		conns[i] = p.VerifAddConnection(i, hostOf(i))
 	}
-	wraps := make([]*wconn, 0, n)
+	wraps := make([]*wconn, n)
 	p.VerifWrapConns(func(c pool.VerifConn) pool.VerifConn {
-		w := &wconn{inner: c, idx: len(wraps)}
-		wraps = append(wraps, w)
+		w := &wconn{inner: c, idx: c.ID()}
+		wraps[c.ID()] = w
 		return w
 	})
 	return p, conns, wraps
@@ -163,6 +163,34 @@ func execC13Walk(in sx.V) sx.V {
 			} else {
 				rr := launch(i, "run", func() { p.VerifNotify(u) }, func() sx.V { return done })
 				r = sx.L(rr, sx.Nat(u.ConnID()), sx.N(uint64(u.Seqno())))
+			}
+		case "drain":
+			// the real Run loop, left alone until the update buffer is empty and every publisher
+			// that was waiting for room has got in; then it is stopped (after its current iteration)
+			if busy("run") {
+				r = sx.A("busy")
+			} else {
+				rctx, rcancel := context.WithCancel(context.Background())
+				d := goStep(func() { p.Run(rctx) })
+				deadline := time.Now().Add(5 * time.Second)
+				for time.Now().Before(deadline) {
+					publishing := false
+					for _, q := range pending {
+						if q.agent[0] == 'c' && !finished(q.done, 0) {
+							publishing = true
+						}
+					}
+					if !publishing && p.VerifUpdateBufferLen() == 0 {
+						break
+					}
+					time.Sleep(200 * time.Microsecond)
+				}
+				rcancel()
+				if finished(d, 5*time.Second) {
+					r = done
+				} else {
+					r = sx.A("hang")
+				}
 			}
 		case "tick":
 			if busy("run") {
@@ -417,6 +445,79 @@ func genC13Walks(c *Ctx, f *c13Fails) {
 			c.Emit("c13.walk", walkSx(0, 1, []int{100, 5}, ops), fmt.Sprintf("walk|burst|k%d", k))
 		}
 	}
+	// several updates are queued while Run is not scheduled; then the real Run loop handles them
+	queued := []struct {
+		class string
+		in    sx.V
+	}{
+		{"walk|queued|best-then-same-of-other", walkSx(0, 2, []int{7}, []sx.V{op2("sethead", 0, 5), op0("drain"), op1("sub", 0), op2("sethead", 0, 7), op2("sethead", 1, 7),
+			op0("state"), op0("drain"), op0("state"), op1("recv", 0), op1("unsub", 0), op0("state")})},
+		{"walk|queued|best-then-newer-of-other", walkSx(0, 2, []int{7}, []sx.V{op2("sethead", 0, 5), op0("drain"), op1("sub", 0), op2("sethead", 0, 7), op2("sethead", 1, 8),
+			op0("drain"), op0("state"), op1("recv", 0), op1("unsub", 0), op0("state")})},
+		{"walk|queued|newer-of-other-then-best", walkSx(1, 2, []int{7}, []sx.V{op2("sethead", 0, 5), op0("drain"), op1("sub", 0), op2("sethead", 1, 8), op2("sethead", 0, 7),
+			op0("drain"), op0("state"), op1("recv", 0), op1("unsub", 0), op0("state")})},
+		{"walk|queued|first-heads", walkSx(0, 3, []int{1, 1}, []sx.V{op1("sub", 0), op1("sub", 1), op2("sethead", 0, 1), op2("sethead", 1, 1), op2("sethead", 2, 2),
+			op0("drain"), op0("state"), op1("recv", 0), op1("recv", 1), op1("unsub", 0), op1("unsub", 1), op0("state")})},
+		{"walk|queued|full-buffer", walkSx(0, 2, []int{9, 4}, append(append([]sx.V{op1("sub", 0), op1("sub", 1)}, append(setheads(0, 1, 6), setheads(1, 3, 5)...)...),
+			op0("state"), op0("drain"), op0("state"), op1("recv", 0), op1("recv", 1), op0("drain"), op0("state")))},
+	}
+	for _, q := range queued {
+		c.Emit("c13.walk", q.in, q.class)
+	}
+	nq := c.Scale(60, 900)
+	for i := 0; i < nq; i++ {
+		nconns := 2 + r.Intn(2)
+		nw := 1 + r.Intn(2)
+		strat := r.Intn(2)
+		heads := make([]int, nconns)
+		base := r.Intn(4)
+		var ops []sx.V
+		if base > 0 {
+			for cn := 0; cn < nconns; cn++ {
+				if r.Chance(70) {
+					heads[cn] = base
+					ops = append(ops, op2("sethead", cn, base))
+				}
+			}
+			ops = append(ops, op0("drain"))
+		}
+		if r.Chance(30) {
+			b := r.Intn(nconns)
+			ops = append(ops, opConn(b, true, 1), op0("tick"))
+		}
+		tgts := make([]int, nw)
+		for w := range tgts {
+			tgts[w] = base + 1 + r.Intn(3)
+			ops = append(ops, op1("sub", w))
+		}
+		for round := 1 + r.Intn(2); round > 0; round-- {
+			// one new block reaches the servers within the same millisecond
+			queuedNow := 0
+			for _, cn := range randPerm(r, nconns) {
+				if r.Chance(80) && queuedNow < 9 {
+					heads[cn] = maxInt(heads[cn], base) + 1 + r.Intn(2)
+					if r.Chance(40) {
+						heads[cn] = maxOf(heads) // exactly the same block as the others
+					}
+					ops = append(ops, op2("sethead", cn, heads[cn]))
+					queuedNow++
+				}
+			}
+			if r.Chance(30) {
+				ops = append(ops, op0("state"))
+			}
+			ops = append(ops, op0("drain"), op0("state"))
+			for w := 0; w < nw; w++ {
+				ops = append(ops, op1("recv", w))
+			}
+			base = maxOf(heads)
+		}
+		for w := 0; w < nw; w++ {
+			ops = append(ops, op1("recv", w), op1("unsub", w))
+		}
+		ops = append(ops, op0("state"))
+		c.Emit("c13.walk", walkSx(strat, nconns, tgts, ops), fmt.Sprintf("walk|queued|random|c%d|w%d", nconns, nw))
+	}
 	// the best connection switches while an unconsumed head of the old one is in the channels
 	nsw := c.Scale(24, 400)
 	for i := 0; i < nsw; i++ {
@@ -488,10 +589,15 @@ func genC13Walks(c *Ctx, f *c13Fails) {
 				}
 				ops = append(ops, op2("sethead", cn, h))
 				unconsumed++
-			case k < 6: // Run consumes one update
-				ops = append(ops, op0("notify"))
-				if unconsumed > 0 {
-					unconsumed--
+			case k < 6: // Run consumes one update, or is scheduled for long enough to handle everything queued
+				if r.Chance(30) {
+					ops = append(ops, op0("drain"))
+					unconsumed = 0
+				} else {
+					ops = append(ops, op0("notify"))
+					if unconsumed > 0 {
+						unconsumed--
+					}
 				}
 				if unconsumed < 10 {
 					blocked = false
@@ -565,12 +671,22 @@ func runWait(in sx.V) (sx.V, time.Duration) {
 	tgt := uint32(in.List[0].U64())
 	h0 := uint32(in.List[1].U64())
 	cancelIt := in.List[3].Bool
+	// batch shape (tgt h0 heads cancel 'batch): all heads are published while the Run
+	// goroutine is not scheduled (here: not started yet), then Run handles the queue
+	batch := len(in.List) == 5
 	p, conns, _ := newWalkPool(0, 2)
 	ctx, stop := context.WithCancel(context.Background())
 	defer stop()
-	go p.Run(ctx)
+	if !batch {
+		go p.Run(ctx)
+	}
 	if h0 > 0 {
 		conns[0].SetMasterHead(h0)
+	}
+	if batch {
+		if u, ok := p.VerifTakeUpdate(); ok {
+			p.VerifNotify(u)
+		}
 	}
 	for k := 0; k < 200 && p.VerifUpdateBufferLen() > 0; k++ {
 		time.Sleep(time.Millisecond)
@@ -598,15 +714,34 @@ func runWait(in sx.V) (sx.V, time.Duration) {
 		err = p.WaitMasterchainSeqno(wctx, tgt, timeout)
 		took = time.Since(start)
 	})
-	time.Sleep(3 * time.Millisecond) // let it subscribe
-	for _, ch := range in.List[2].List {
-		c, h := ch.List[0].I(), uint32(ch.List[1].U64())
-		conns[c].SetMasterHead(h)
-		if h > cur[c] {
-			cur[c] = h
+	if batch {
+		// the caller is inside (registered, or back already) before anything is queued
+		for k := 0; k < 4000 && p.VerifWaitListLen() != 1 && !finished(d, 0); k++ {
+			time.Sleep(500 * time.Microsecond)
 		}
-		if finished(d, 3*time.Millisecond) {
-			break
+		for i, ch := range in.List[2].List {
+			if i >= 10 {
+				break // the update buffer has 10 slots
+			}
+			c, h := ch.List[0].I(), uint32(ch.List[1].U64())
+			conns[c].SetMasterHead(h)
+			if h > cur[c] {
+				cur[c] = h
+			}
+		}
+		go p.Run(ctx)
+		finished(d, 20*time.Millisecond)
+	} else {
+		time.Sleep(3 * time.Millisecond) // let it subscribe
+		for _, ch := range in.List[2].List {
+			c, h := ch.List[0].I(), uint32(ch.List[1].U64())
+			conns[c].SetMasterHead(h)
+			if h > cur[c] {
+				cur[c] = h
+			}
+			if finished(d, 3*time.Millisecond) {
+				break
+			}
 		}
 	}
 	if !sufficient {
@@ -644,6 +779,11 @@ func waitSx(tgt, h0 int, heads [][2]int, cancel bool) sx.V {
 	return sx.L(sx.Nat(tgt), sx.Nat(h0), sx.L(hs...), sx.B(cancel))
 }
 
+func waitBatchSx(tgt, h0 int, heads [][2]int, cancel bool) sx.V {
+	v := waitSx(tgt, h0, heads, cancel)
+	return sx.L(append(append([]sx.V{}, v.List...), sx.A("batch"))...)
+}
+
 func genC13Waits(c *Ctx, f *c13Fails) {
 	r := c.R
 	emit := func(in sx.V, class string) {
@@ -657,6 +797,16 @@ func genC13Waits(c *Ctx, f *c13Fails) {
 				f.fail("c13.wait", in, "wait-success-late", fmt.Sprintf("WaitMasterchainSeqno returned nil only after %v", took))
 			}
 		case "timeout":
+			suff := in.List[1].I() >= in.List[0].I()
+			for _, ch := range in.List[2].List {
+				if ch.List[0].I() == 0 && ch.List[1].I() >= in.List[0].I() {
+					suff = true
+				}
+			}
+			if suff {
+				f.fail("c13.wait", in, "wait-lost-head", fmt.Sprintf("WaitMasterchainSeqno(%d) returned timeout after %v although the best connection reported a head at or beyond it in time (published, consumed by Run)", in.List[0].I(), took.Round(time.Millisecond)))
+				break
+			}
 			if took < waitShort {
 				f.fail("c13.wait", in, "wait-timeout-early", fmt.Sprintf("WaitMasterchainSeqno(timeout %v) returned an error after %v", waitShort, took))
 			}
@@ -678,6 +828,13 @@ func genC13Waits(c *Ctx, f *c13Fails) {
 	emit(waitSx(1000, 2, [][2]int{{0, 3}, {0, 4}}, false), "wait|never")
 	emit(waitSx(100, 2, [][2]int{{0, 3}}, true), "wait|cancelled")
 	emit(waitSx(1, 0, [][2]int{{0, 1}}, false), "wait|first-head")
+	// several connections report the block before Run is scheduled: every queued update is handled
+	emit(waitBatchSx(7, 5, [][2]int{{0, 7}, {1, 7}}, false), "wait|batch|best-then-same-of-other")
+	emit(waitBatchSx(7, 5, [][2]int{{0, 7}, {1, 8}}, false), "wait|batch|best-then-newer-of-other")
+	emit(waitBatchSx(7, 5, [][2]int{{1, 8}, {0, 7}}, false), "wait|batch|newer-of-other-then-best")
+	emit(waitBatchSx(7, 5, [][2]int{{0, 6}, {1, 9}, {0, 7}, {1, 10}}, false), "wait|batch|interleaved")
+	emit(waitBatchSx(7, 5, [][2]int{{1, 7}, {1, 8}}, false), "wait|batch|other-only")
+	emit(waitBatchSx(1, 0, [][2]int{{0, 1}, {1, 1}}, false), "wait|batch|first-heads")
 	n := c.Scale(24, 200)
 	for i := 0; i < n; i++ {
 		tgt := 2 + r.Intn(10)
@@ -687,14 +844,20 @@ func genC13Waits(c *Ctx, f *c13Fails) {
 		k := r.Intn(6)
 		for j := 0; j < k; j++ {
 			cn := 0
-			if r.Chance(30) {
+			if r.Chance(40) {
 				cn = 1
+				if cur[1] < cur[0] && r.Chance(70) {
+					cur[1] = cur[0] // the other server reports the same block
+				}
 			}
 			cur[cn] += r.Intn(4)
 			heads = append(heads, [2]int{cn, cur[cn]})
 		}
-		class := "wait|random"
-		emit(waitSx(tgt, h0, heads, r.Chance(20)), class)
+		if r.Chance(50) {
+			emit(waitBatchSx(tgt, h0, heads, r.Chance(20)), "wait|random|batch")
+		} else {
+			emit(waitSx(tgt, h0, heads, r.Chance(20)), "wait|random")
+		}
 	}
 }
 
@@ -1141,4 +1304,14 @@ func genC13Repro(c *Ctx, f *c13Fails) {
 			f.fail("c13.repro", sx.Nat(k), rp.key, lastReproWhat)
 		}
 	}
+}
+
+func maxOf(xs []int) int {
+	m := xs[0]
+	for _, x := range xs {
+		if x > m {
+			m = x
+		}
+	}
+	return m
 }
